@@ -408,9 +408,15 @@ func styleFields(s rstyle) []string {
 // strconv.ParseFloat answers for every text the parser can hand to it: the
 // value of each "error:" line (also after joining a multi-line counter, which
 // never starts with "error:")
-func floatTable(text string) []string {
+func floatTable(text string, extra ...string) []string {
 	seen := map[string]bool{}
 	var keys []string
+	for _, v := range extra { // the renderings whose survival valid_record asks about
+		if !seen[v] {
+			seen[v] = true
+			keys = append(keys, v)
+		}
+	}
 	for _, line := range strings.Split(text, "\n") {
 		t, _, _ := strings.Cut(line, "#")
 		if strings.HasPrefix(t, "error:") {
@@ -490,7 +496,11 @@ func caseRender() {
 		f = append(f, HS(fmtFloat(rs[i].Error)))
 	}
 	f = append(f, HS(text))
-	f = append(f, floatTable(text)...)
+	var fmts []string
+	for i := range rs {
+		fmts = append(fmts, fmtFloat(rs[i].Error))
+	}
+	f = append(f, floatTable(text, fmts...)...)
 	pf, _ := parseFields(text)
 	f = append(f, pf...)
 	out.Note(fmt.Sprintf("render-records-%d", len(rs)))
@@ -696,6 +706,9 @@ func genGen() genReq {
 			r.Type = "stack"
 			r.Depth = 1 + rnd.Intn(16)
 			out.Note("gen-stack")
+		} else if rnd.Intn(8) == 0 {
+			r.Type = "stack" // a stack chart without a depth is listed as a counter
+			out.Note("gen-stack-type-no-depth")
 		} else {
 			r.Type = "partition"
 		}
